@@ -498,6 +498,8 @@ class Realiser:
         self.s = argument(Tensor(np.int64, (None,)))
         self.uses_s = False
         self.uses_c = False
+        self.fn_cache: dict = {}      # (name, domain, definition) -> to_function callable / Function factory
+        self.inline_cache: dict = {}  # model description -> the callable `inline(model)` returned
 
     def block(self, nodes, env):
         for st in nodes:
@@ -523,7 +525,10 @@ class Realiser:
 
             return o.if_(cond, then_branch=mk(st["then"]), else_branch=mk(st["else"]))[0]
         if op == "reffn":  # a Function subclass whose body refers to the function's attribute (tests/test_function.py idiom)
-            return self.ref_function(st)(env[st["args"][0]])
+            key = ("reffn", st["name"], st["mv"], st["k"])
+            if key not in self.fn_cache:
+                self.fn_cache[key] = self.ref_function(st)
+            return self.fn_cache[key](env[st["args"][0]])
         if op == "loop":  # two iterations over one state; the body may use outer values
             o = ops(st["mv"])
             blk, pid = st["body"], st["param"]
@@ -538,6 +543,13 @@ class Realiser:
         if op == "inline":
             from spox import inline
 
+            if st.get("share"):  # ONE callable returned by `inline`, applied at several places
+                import json as _json
+
+                key = _json.dumps(st["model"], sort_keys=True)
+                if key not in self.inline_cache:
+                    self.inline_cache[key] = inline(self.model_of(st["model"]))
+                return list(self.inline_cache[key](env[st["args"][0]]).values())[0]
             m = self.model_of(st["model"])
             return list(inline(m)(env[st["args"][0]]).values())[0]
         if op == "func":
@@ -550,9 +562,16 @@ class Realiser:
                 self.block(blk["nodes"], e)
                 return [e[blk["out"]]]
 
-            # to_function inspects the signature: give it the right number of positional parameters
-            src = "lambda {0}: body({0})".format(", ".join(f"a{i}" for i in range(len(params))))
-            fn = to_function(st["name"], st.get("domain", "spox.verif"))(eval(src, {"body": body}))
+            # a function statement with the name and definition of an earlier one is another APPLICATION of
+            # the same function (the same `to_function` callable called again)
+            import json as _json
+
+            key = (st["name"], st.get("domain", "spox.verif"), _json.dumps([params, blk], sort_keys=True))
+            if key not in self.fn_cache:
+                # to_function inspects the signature: give it the right number of positional parameters
+                src = "lambda {0}: body({0})".format(", ".join(f"a{i}" for i in range(len(params))))
+                self.fn_cache[key] = to_function(st["name"], st.get("domain", "spox.verif"))(eval(src, {"body": body}))
+            fn = self.fn_cache[key]
             return list(fn(*[env[a] for a in st["args"]]))[0]
         if op in ML_MACROS:
             return build_ml(op, st["mv"], st.get("dv", 17), [env[a] for a in st["args"]])
@@ -892,6 +911,10 @@ class Gen:
                                     [19, 21], [17, 18, 21], [17, 20]])
         # sometimes only function bodies are written against the newest module (the model's maximum
         # is then required by a function body alone)
+        self.inline_in_func = rng.random() < 0.5
+        self.last_inline = None
+        self.shared_models: set = set()
+        self.funcs_made: list = []
         self.func_versions = None
         if len(self.versions) >= 2 and rng.random() < 0.3:
             hi = max(self.versions)
@@ -960,9 +983,17 @@ class Gen:
             elif r < 0.22 and depth == 0 and not in_func and self.allow_func:
                 st = {"id": self.fresh(), "op": "reffn", "mv": self.mv(), "name": f"RefFn{next(_uid)}",
                       "k": rng.choice([2.0, -0.5, 1.5]), "args": [rng.choice([p_ for p_ in pool if p_ not in tainted] or ["x"])]}
-            elif r < 0.27 and self.allow_inline and not in_func:
-                st = {"id": self.fresh(), "op": "inline", "model": self.model_desc(),
-                      "args": [rng.choice(pool)]}
+            elif r < 0.27 and self.allow_inline and (not in_func or self.inline_in_func):
+                md = self.model_desc()
+                if in_func and md["kind"] not in ("old", "oldx"):
+                    md = self.oldx_desc()
+                st = {"id": self.fresh(), "op": "inline", "model": md, "args": [rng.choice(pool)]}
+                if self.last_inline is not None and rng.random() < 0.35:
+                    # the same callable returned by `inline` applied once more
+                    st["model"] = copy_json(self.last_inline)
+                    st["share"] = True
+                    self.shared_models.add(json_key(st["model"]))
+                self.last_inline = st["model"]
             elif r < 0.33 and self.allow_func and depth == 0 and not in_func:
                 np_ = rng.randrange(1, 3)
                 params = [self.fresh() for _ in range(np_)]
@@ -990,6 +1021,14 @@ class Gen:
                                              for _ in range(np_)]}
                 if bt:
                     tainted.add(st["id"])
+                else:
+                    self.funcs_made.append(st)
+            elif r < 0.36 and self.allow_func and not in_func and self.funcs_made:
+                # another application of a function made earlier (main graph or a body): the same callable
+                f0 = rng.choice(self.funcs_made)
+                st = copy_json(f0)
+                st["id"] = self.fresh()
+                st["args"] = [rng.choice([p for p in pool if p not in tainted] or ["x"]) for _ in f0["params"]]
             elif r < 0.39 and self.allow_ml:
                 st = {"id": self.fresh(), "op": rng.choice(list(ML_MACROS)), "mv": rng.choice(ML_VERSIONS),
                       "dv": self.mv(), "args": [rng.choice([p for p in pool if p not in tainted] or ["x"])]}
@@ -1074,12 +1113,116 @@ class Gen:
                 outs.append(fx["id"])
             else:
                 outs.append(o)
-        prog = sink(prune({"nodes": nodes, "outs": outs}))
+        prog = mark_shared_inlines(sink(prune({"nodes": nodes, "outs": outs})))
         if self.rng.random() < 0.12:
             prog["with_opset"] = [[self.rng.choice(["ai.onnx", "ai.onnx", ""]), self.rng.randrange(13, 22)]]
         if self.clean:
             align_unknown_rank(prog)
         return prog
+
+
+def copy_json(x):
+    import json
+
+    return json.loads(json.dumps(x))
+
+
+def json_key(x):
+    import json
+
+    return json.dumps(x, sort_keys=True)
+
+
+def mark_shared_inlines(prog):
+    """Every inline statement whose model description occurs in a `share`d statement is shared too (one
+    callable for all of them), wherever pruning / sinking left them."""
+    shared = {json_key(st["model"]) for st, *_ in walk(prog["nodes"]) if st["op"] == "inline" and st.get("share")}
+    for st, *_ in walk(prog["nodes"]):
+        if st["op"] == "inline" and json_key(st["model"]) in shared:
+            st["share"] = True
+    return prog
+
+
+def func_twice_program(rng, idx=0):
+    """Feedback class (round 7): a function whose body needs conversion (a v17 operator with an attribute the
+    newer schema takes as an input, Split, DFT, GridSample …, or an inlined legacy model), a newer operator
+    raising the model's opset, the function applied 2-4 times: main graph and / or If / Loop bodies."""
+    g = Gen(rng, clean=True, size=rng.randrange(1, 5), max_depth=1, allow_dyn=False, allow_func=False,
+            allow_inline=False, allow_ml=False)
+    g.func_versions = None
+    lo = rng.choice([17, 17, 17, 18, 19])
+    g.versions = [lo]
+    np_ = rng.randrange(1, 3)
+    params = [g.fresh() for _ in range(np_)]
+    body_nodes = []
+    cur = params[0]
+    for _ in range(rng.randrange(1, 4)):
+        r = rng.random()
+        if r < 0.55:
+            op = rng.choice(CONVERTIBLE + ["split_cat", "dft", "grid_sample", "rlogsum", "rlse", "resize", "identity", "pad"])
+            st = {"id": g.fresh(), "op": op, "mv": lo, "args": [cur]}
+            if "params" in MACROS[op]:
+                st["p"] = MACROS[op]["params"](rng)
+        elif r < 0.75:
+            st = {"id": g.fresh(), "op": "inline", "model": g.oldx_desc(), "args": [cur]}
+        elif r < 0.9 and np_ == 2:
+            st = {"id": g.fresh(), "op": rng.choice(["add", "sub", "mul"]), "mv": lo, "args": [cur, params[1]]}
+        else:
+            t = {"id": g.fresh(), "op": rng.choice(CONVERTIBLE), "mv": lo, "args": [cur], "p": {"axis": rng.randrange(2)}}
+            e = {"id": g.fresh(), "op": "neg", "mv": lo, "args": [cur]}
+            st = {"id": g.fresh(), "op": "if", "mv": lo, "cond": rng.choice(["t", "f"]),
+                  "then": {"nodes": [t], "out": t["id"]}, "else": {"nodes": [e], "out": e["id"]}}
+        body_nodes.append(st)
+        cur = st["id"]
+    fdef = {"op": "func", "name": f"ftw{idx}_{next(_uid)}", "domain": rng.choice(["spox.verif", "verif.other"]),
+            "params": params, "body": {"nodes": body_nodes, "out": cur}}
+    blk, _ = g.block(["x", "y"], set(), 0, g.size)
+    nodes = list(blk["nodes"])
+    taint = tainted_ids({"nodes": nodes, "outs": []})
+    pool = ["x", "y"] + [st["id"] for st in nodes if st["id"] not in taint]
+    tops = []
+
+    def call(args_pool):
+        c = copy_json(fdef)
+        c["id"] = g.fresh()
+        c["args"] = [rng.choice(args_pool) for _ in params]
+        return c
+
+    n_calls = rng.choice([2, 2, 3, 4])
+    for k in range(n_calls):
+        where = rng.choice(["top", "top", "if", "loop"]) if k else "top"
+        if where == "top":
+            c = call(pool)
+            nodes.append(c)
+            tops.append(c["id"])
+            pool.append(c["id"])
+        elif where == "if":
+            c = call(pool)
+            other = call(pool) if rng.random() < 0.4 else {"id": g.fresh(), "op": "abs", "mv": lo, "args": [rng.choice(pool)]}
+            e = {"id": g.fresh(), "op": "if", "mv": rng.choice([lo, 17]), "cond": rng.choice(["c", "nc"]),
+                 "then": {"nodes": [c], "out": c["id"]}, "else": {"nodes": [other], "out": other["id"]}}
+            nodes.append(e)
+            tops.append(e["id"])
+        else:
+            pid = g.fresh()
+            c = call([pid])
+            e = {"id": g.fresh(), "op": "loop", "mv": lo, "param": pid, "args": [rng.choice(pool)],
+                 "body": {"nodes": [c], "out": c["id"]}}
+            fx = {"id": g.fresh(), "op": "fix", "mv": lo, "args": [e["id"]]}
+            nodes += [e, fx]
+            tops.append(fx["id"])
+    hi = rng.choice([h for h in (18, 19, 20, 21) if h > lo])
+    op_, mv_ = PIN[hi]
+    cur = tops[0]
+    for t in tops[1:]:
+        e = {"id": g.fresh(), "op": rng.choice(["add", "sub", "mul"]), "mv": lo, "args": [cur, t]}
+        nodes.append(e)
+        cur = e["id"]
+    e = {"id": g.fresh(), "op": op_, "mv": mv_, "args": [cur]}
+    nodes.append(e)
+    prog = sink(prune({"nodes": nodes, "outs": [e["id"]]}))
+    align_unknown_rank(prog)
+    return prog
 
 
 def inline_mix_program(rng, idx=0):
@@ -1216,6 +1359,8 @@ def make_history(rng, prog, idx=0):
         elif style == 2:
             names = [f"r{b}_{i}" for i in range(len(ids))]
         spec = {"names": dict(rng.choice(NAME_MAPS)), "outs": [[nm, i] for nm, i in zip(names, ids)]}
+        if specs and rng.random() < 0.2:
+            spec = copy.deepcopy(specs[-1])  # exactly the same build once more
         if rng.random() < 0.25:
             spec["low"] = True
         if inner and rng.random() < 0.35:
